@@ -361,8 +361,12 @@ class AsyncClient(base_client.BaseClient):
                     'WebSocket upgrade failed: unexpected recv exception: %s',
                     str(e))
                 return False
-            pkt = packet.Packet(encoded_packet=p)
-            if pkt.packet_type != packet.PONG or pkt.data != 'probe':
+            try:
+                pkt = packet.Packet(encoded_packet=p)
+            except Exception:
+                pkt = None
+            if pkt is None or pkt.packet_type != packet.PONG or \
+                    pkt.data != 'probe':
                 self.logger.warning(
                     'WebSocket upgrade failed: no PONG packet')
                 return False
